@@ -66,7 +66,7 @@ def main():
         else:
             na.append(dict(property_id=pid, reason=NOT_YET.get(pid, 'not claimed yet: the Lean model, theorems and correspondence harness for this property are not built at this commit (planned, see DESIGN.md section 5); the technique itself applies')))
     m = dict(version=1,
-             setup_cmd='/venv/bin/python tools/translate.py && python3 tools/mkroot.py && cd lean && lake build DadiVerif && cd .. && /venv/bin/python tools/build_repo.py --smoke',
+             setup_cmd='/venv/bin/python tools/translate.py && python3 tools/mkroot.py && cd lean && lake build $(cat targets.txt) && cd .. && /venv/bin/python tools/build_repo.py --smoke',
              hooks=dict(guard='DADI_VERIF', enable='no in-source hooks: checks wrap module attributes of a scratch rebuild of /repo (tools/build_repo.py); DADI_VERIF=1 is exported by ./check for future add-only hooks',
                         baseline_off_cmd='cd /repo && env -u DADI_VERIF /venv/bin/python -m pytest -ra -q -p no:cacheprovider --timeout=900 --continue-on-collection-errors',
                         source_commits=[], add_only=True),
